@@ -521,7 +521,24 @@ let sc_merger_empty_values c =
   List.iter (fun (r, id) -> Rd.c_reader_destroy r; destroy c id) rs;
   observe c "merger_destroy" ~threads_exact:true
 
-let scenarios = [| ("writer", sc_writer); ("reader", sc_reader); ("merger", sc_merger); ("sorter", sc_sorter); ("fileset", sc_fileset); ("sorter_final_flush_fails", sc_sorter_final_flush_fails); ("sorter_write_refused", sc_sorter_write_refused); ("fileset_long", sc_fileset_long); ("writer_path", sc_writer_path); ("fileset_kinds", sc_fileset_kinds); ("seeks", sc_seeks); ("sorter_zero_pool", sc_sorter_zero_pool); ("merger_empty_values", sc_merger_empty_values) |]
+(* sorters whose merge function returns one of its operands (the larger / the smaller by (length, bytes)): many equal
+   keys inside one chunk with values of different lengths, in both orders; every buffer must be released *)
+let sc_sorter_operand_merge c =
+  let kind = if rbool c.st then 3 else 4 in
+  let mc = Mg.c_merge_clos_new kind 0 in
+  let s = So.c_sorter_init (if rbool c.st then 100000000 else rrange c.st 300 3000) c.spill mc 0n in
+  let sid = create c (KSorter (false, N0)) in
+  for i = 0 to rrange c.st 30 120 do
+    ignore (So.c_sorter_add s (Printf.sprintf "k%d" (rint c.st 5)) (String.make (if i mod 2 = 0 then rrange c.st 20 40 else rrange c.st 0 10) (Char.chr (97 + i mod 26))))
+  done;
+  let it = So.c_sorter_iter s in
+  update c sid (KSorter (false, n_of_int (So.c_mkstemp_count ())));
+  let continue = ref true in
+  if it <> 0n then (while !continue do (match Rd.c_iter_next it with Some _ -> () | None -> continue := false) done; Rd.c_iter_destroy it);
+  So.c_sorter_destroy s; destroy c sid; Mg.c_merge_clos_free mc;
+  observe c "sorter_destroy" ~threads_exact:true
+
+let scenarios = [| ("writer", sc_writer); ("reader", sc_reader); ("merger", sc_merger); ("sorter", sc_sorter); ("fileset", sc_fileset); ("sorter_final_flush_fails", sc_sorter_final_flush_fails); ("sorter_write_refused", sc_sorter_write_refused); ("fileset_long", sc_fileset_long); ("writer_path", sc_writer_path); ("fileset_kinds", sc_fileset_kinds); ("seeks", sc_seeks); ("sorter_zero_pool", sc_sorter_zero_pool); ("merger_empty_values", sc_merger_empty_values); ("sorter_operand_merge", sc_sorter_operand_merge) |]
 
 let run_scenario (name : string) (f : ctx -> unit) ~seed ~index : child_end =
   in_child (fun () ->
@@ -545,7 +562,7 @@ let run_scenario (name : string) (f : ctx -> unit) ~seed ~index : child_end =
 let run ~tier ~seed ~only acc =
   let idx = ref 0 in
   let want () = cur_index := !idx; (match only with None -> true | Some i -> i = !idx) in
-  let n = if tier = "thorough" then 1500 else 143 in
+  let n = if tier = "thorough" then 1500 else 154 in
   for i = 0 to n - 1 do
     if want () then begin
       let (name, f) = scenarios.(i mod Array.length scenarios) in
